@@ -16,6 +16,7 @@ fn main() {
     let code = match cmd {
         "c14-trace" => c14::trace(rest),
         "c14-build" => c14::build(rest),
+        "c14-concurrent" => c14::concurrent(rest),
         "lang-trace" => lang::trace(rest),
         "c12-sweep" => c12::sweep(rest),
         "c07-record" => lang::literals(rest),
